@@ -200,6 +200,7 @@ let instr_of (s : string) : instr =
   | [ "bo"; a; v; w ] -> IBlockOn (nat_s a, n_of_string v, nat_s w)
   | [ "wk"; w ] -> IWake (nat_s w)
   | [ "tkw"; w ] -> ITakeWaker (nat_s w)
+  | [ "cn"; u; k ] -> ICellNested (nat_s u, nat_s k)
   | [ "bs"; a; v; b1; b2 ] -> IBlockOnS (nat_s a, n_of_string v, nat_s b1, nat_s b2)
   | [ "wme" ] -> IWakeMine
   | [ "tw"; k ] -> ITlsWith (nat_s k)
@@ -346,6 +347,7 @@ let model_keys (p : prog) : string list * string =
         | IterPanic (PanicLeak (LMsgs, i)) -> Printf.sprintf "leak msgs %s|%s" (nat_str i) (key_of_logs flat)
         | IterPanic (PanicDeadlock _) -> "deadlock"
         | IterPanic PanicUser -> "panic"
+        | IterPanic PanicCellReading | IterPanic PanicCellWriting -> "panic"   (* loom's report of a nested cell access *)
         | IterPanic (PanicCausality _) -> "causality"
         | IterPanic pn -> "internal:" ^ panic_str pn
         | IterFuel -> "model-out-of-fuel" in
